@@ -58,7 +58,8 @@ BODY_CONTEXTS = ["TYPE @t\n", "TYPE @t regex\n", "GET /a\n200 regex\n", "GET /a\
                  "ENUM @e\n", "GET /a\nQuery q\n", "URL /a/{id}\nPath\n", "POST /a\nRequest\n", "POST /a\nRequest regex\n", "GET /a\n200\nHeaders\n",
                  "URL /r\nProtocol json-rpc-2.0\nMethod m\nParams\n", "URL /r\nProtocol json-rpc-2.0\nMethod m\nResult\n", "GET /a\nDescription\n",
                  "GET /a\nDescription\n(\n", "GET /a // ", "GET /a /* ", 'GET "']
-BODY_EXTRA = ["/ab\\", "/a\\/b/", "/a\\", "/", "//", "/a/ x", '{"a": "\\"}', '{"a": "x\\', "[1, 2", '"a\\"', "text\\", "(a)", "a)", "*/", "x */ y", 'q" r']
+BODY_EXTRA = ["/ab" + chr(92), "/a" + chr(92) * 2 + "/b/", "/^C:" + chr(92) * 2 + "/", "/a" + chr(92) * 4 + "/", "/a" + chr(92) + "/b/", "/a" + chr(92), "/", "//", "/a/ x",
+              '{"a": "' + chr(92) * 2 + '"}', '{"a": "x' + chr(92), "[1, 2", '"a' + chr(92) * 2 + '"', "text" + chr(92), "(a)", "a)", "*/", "x */ y", 'q" r']
 
 
 def gen_directed():
@@ -171,8 +172,15 @@ def body_lengths_ok(data, lex):
     """a Schema/Enum lexeme is exactly one value as delimited by the schema library"""
     q = []
     idx = []
+    prev = None
     for (k, b, e) in lex:
         if k in (3, 8) and b <= e + 1 <= len(data):
             q.append(("schema " if k == 3 else "enum ") + C.hx(data[b:]))
             idx.append((k, b, e))
+        elif k == 5 and prev is not None and prev[0] == 1 and data[prev[1]:prev[2] + 1].strip(b'"') == b"regex" and data[b:b + 1] == b"/" \
+                and b <= e + 1 <= len(data):
+            # the body of a directive whose last parameter is the notation regex: one regular expression as the library delimits it
+            q.append("regex " + C.hx(data[b:]))
+            idx.append((k, b, e))
+        prev = (k, b, e)
     return q, idx
